@@ -43,6 +43,21 @@ Theorem C08_window_exact : forall L c v, 0 <= L / 2 -> L / 2 < 183 -> 1 <= v <= 
 Proof. exact window_exact. Qed.
 Print Assumptions C08_window_exact.
 
+(** non-vacuity, across the turn of the year: with L = 31 the window of centre day 10 contains day 361 (distance 15)
+    and not day 360 (distance 16) *)
+Example C08_window_exact_wraps :
+  0 <= 31 / 2 /\ 31 / 2 < 183 /\ circ 361 10 <= 31 / 2 /\ ~ circ 360 10 <= 31 / 2 /\
+  In 361 (NP.replace_eq (NP.zmod_list (NP.arange (10 - 31 / 2) (10 + 31 / 2 + 1) 1) (365 + 1)) 0 366) /\
+  ~ In 360 (NP.replace_eq (NP.zmod_list (NP.arange (10 - 31 / 2) (10 + 31 / 2 + 1) 1) (365 + 1)) 0 366).
+Proof.
+  assert (A : 0 <= 31 / 2) by (vm_compute; discriminate). assert (B : 31 / 2 < 183) by reflexivity.
+  assert (C : circ 361 10 <= 31 / 2) by (vm_compute; discriminate).
+  assert (D : ~ circ 360 10 <= 31 / 2) by (vm_compute; intro H; apply H; reflexivity).
+  repeat split; try assumption.
+  - apply (proj2 (window_exact 31 10 361 A B ltac:(split; vm_compute; discriminate))). exact C.
+  - intro H. apply D. apply (proj1 (window_exact 31 10 360 A B ltac:(split; vm_compute; discriminate))). exact H.
+Qed.
+
 (** the time steps handed to a window's calibration are exactly those whose day of year is within L/2 of the centre *)
 Theorem C08_window_indices_exact : forall L days c i, 0 <= L / 2 -> L / 2 < 183 -> (forall d, In d days -> 1 <= d <= 366) ->
   (In i (days_indices_in_window L days c) <->
